@@ -2819,16 +2819,11 @@ func (db *DB) Import(ctx context.Context, r io.Reader) error {
 	}
 	defer guard.Unlock()
 
-	// Invalidate journal, if one exists.
-	if err := db.invalidateJournal(JournalModePersist); err != nil {
-		return fmt.Errorf("invalidate journal: %w", err)
-	}
-
-	// Truncate WAL, if it exists.
-	if _, err := db.os.Stat("IMPORT:WAL", db.WALPath()); err == nil {
-		if err := db.TruncateWAL(ctx, 0); err != nil {
-			return fmt.Errorf("truncate wal: %w", err)
-		}
+	// Roll back a hot journal and checkpoint the WAL into the database file
+	// instead of discarding them. Committed transactions that only exist in
+	// the WAL must survive an import that fails (e.g. on truncated input).
+	if err := db.recover(ctx); err != nil {
+		return fmt.Errorf("recover: %w", err)
 	}
 
 	pos, err := db.importToLTX(ctx, r)
